@@ -54,11 +54,23 @@ func c03LeafAgree(c *core.Ctx) {
 	// node side: metadata is hashed unless empty
 	cm := c.MustFn(rule, "aggsender/flows", "", "convertBridgeMetadata")
 	if cm != nil {
-		okVal := false
-		for _, r := range core.Returns(cm) {
-			okVal = lx.Of(r.Results[0]) == "PHI{EMPTY|K(BYTES(metadata))}"
-		}
 		nonEmpty := core.TermEdges(cm, sx, func(s string, _ *core.Term) bool { return s == "(len(metadata) > const(0))" }, true)
+		empty := core.TermEdges(cm, sx, func(s string, _ *core.Term) bool { return s == "(len(metadata) > const(0))" }, false)
+		okVal := true
+		seen := map[string]bool{}
+		for _, rc := range core.ReturnCases(cm) {
+			l := lx.Of(rc.Values[0])
+			seen[l] = true
+			switch l {
+			case "EMPTY":
+				okVal = okVal && rc.ReachableOnlyVia(cm, empty)
+			case "K(BYTES(metadata))":
+				okVal = okVal && rc.ReachableOnlyVia(cm, nonEmpty)
+			default:
+				okVal = false
+			}
+		}
+		okVal = okVal && seen["EMPTY"] && seen["K(BYTES(metadata))"]
 		c.Decide(okVal && len(nonEmpty) > 0, rule, "flows.convertBridgeMetadata", cm.Pos(), "metadata ↦ keccak(metadata) when non-empty, nil otherwise (so BridgeExit.Hash's leg equals Bridge.Hash's keccak(metadata) in both cases)")
 	}
 	// field map bridge → exit (composition with the layouts above gives Bridge.Hash's layout, C01-leaf)
@@ -196,7 +208,9 @@ func c03NewLER(c *core.Ctx) {
 	fn := c.MustFn(rule, "aggsender/flows", "baseFlow", "getNewLocalExitRoot")
 	if fn != nil {
 		noBridges := core.TermEdges(fn, sx, func(s string, _ *core.Term) bool {
-			return s == "((*aggsender/types.CertificateBuildParams).NumberOfBridges(certParams) == const(0))"
+			// a count: `<= 0` says the same as `== 0`
+			return s == "((*aggsender/types.CertificateBuildParams).NumberOfBridges(certParams) == const(0))" ||
+				s == "((*aggsender/types.CertificateBuildParams).NumberOfBridges(certParams) <= const(0))"
 		}, true)
 		n := 0
 		for _, rc := range core.ReturnCases(fn) {
